@@ -3,6 +3,7 @@ import vlib
 from genmodel import *
 
 ID = "C03"
+HARNESS_ENV = {"COCA_BIN": __import__("os").path.join(vlib.ROOT, "harness", "bin", "coca")}
 MODEL_ENTRY = "C03.model"
 SPEC_ENTRY = "C03.spec"
 HARNESS_OP = "C03"
